@@ -314,6 +314,13 @@ def env_cases(tier):
                 yield ("/" + s, q, b)
     vals = Q_ATOMS if T else Q_ATOMS[:8]
     pairs = list(itertools.product(vals, repeat=2))
+    # the empty path (PATH_INFO == '') and '/' crossed with queries, on every base
+    for b in range(len(BASES)):
+        for pth in ("", "/"):
+            for q in few_q:
+                yield (pth, q, b)
+            for p1 in pairs:
+                yield (pth, (p1,), b)
     for s in ["", "a", "é/ "]:
         for b in (0, 3):
             for p1 in pairs:
@@ -444,7 +451,7 @@ def check_env(path: str, query, b: int):
         }
     except Exception as e:  # noqa: BLE001
         return [("env:exception", repr(e))], {}
-    exp_path = unquote(path)
+    exp_path = "/" + unquote(path).lstrip("/")      # an empty path is the root: Request.path is '/'
     if got["path"] != exp_path:
         fails.append(("env:path", (exp_path, got["path"])))
     exp_args = grouped(query or ())
@@ -700,9 +707,65 @@ def check_disp(mounts, path: str, script: str):
     return fails, {"app": name, "SCRIPT_NAME": sn, "PATH_INFO": pi}
 
 
+# ------------------------------------------------------------------ dispatcher -> Request chain
+
+C_MOUNTS = ["/api", "/a/b", "/é"]
+C_PATHS = ["", "/", "/api", "/api/", "/api/x", "/api//", "/a/b", "/a/b/c d", "/a", "/other", "/é", "/é/ü"]
+C_QUERIES = [(), (("page", "2"),), (("é", " &"), ("", "=")), (("q", "%41"),)]
+C_SCRIPTS = ["", "/root"]
+
+
+def chain_cases():
+    return itertools.product(C_PATHS, C_QUERIES, C_SCRIPTS, ("http", "https"))
+
+
+def check_chain(path, query, script, scheme):
+    """A request that reaches an app through DispatcherMiddleware must still reconstruct the URL it was made to."""
+    from urllib.parse import quote as _q
+
+    seen = []
+
+    def app(environ, start_response):
+        r = Request(environ)
+        seen.append({"url": r.url, "wsgi": wsgi_get_current_url(environ), "args": list(r.args.items(multi=True)),
+                     "SCRIPT_NAME": environ.get("SCRIPT_NAME"), "PATH_INFO": environ.get("PATH_INFO"),
+                     "base_url": r.base_url, "wsgi_strip": wsgi_get_current_url(environ, strip_querystring=True)})
+        return [b""]
+
+    qs = "&".join(quote_plus(k) + "=" + quote_plus(v) for k, v in query)
+    env = {"REQUEST_METHOD": "GET", "wsgi.url_scheme": scheme, "SERVER_NAME": "h", "SERVER_PORT": "80",
+           "HTTP_HOST": "example.com", "SCRIPT_NAME": dance(script), "PATH_INFO": dance(path), "QUERY_STRING": qs}
+    try:
+        DispatcherMiddleware(app, {dance(m): app for m in C_MOUNTS})(env, lambda *a, **k: None)
+    except Exception as e:  # noqa: BLE001
+        return [("chain:exception", repr(e))], {}
+    if len(seen) != 1:
+        return [("chain:not-exactly-one-app-called", len(seen))], {}
+    got = seen[0]
+    fails = []
+    full = script + path
+    # werkzeug writes root + '/' + rest: an exact mount hit (empty PATH_INFO) gains a trailing slash
+    allowed = {canon(_q(full, safe="/"), "/"), canon(_q(full.rstrip("/") + "/", safe="/"), "/")}
+    for key, want_q in (("url", qs), ("wsgi", qs), ("base_url", ""), ("wsgi_strip", "")):
+        try:
+            m = meaning(got[key])
+        except Exception as e:  # noqa: BLE001
+            fails.append((f"chain:{key}:unparseable", repr(e)))
+            continue
+        if m["scheme"] != scheme or m["host"] != "example.com":
+            fails.append((f"chain:{key}:authority", got[key]))
+        if m["path"] not in allowed:
+            fails.append((f"chain:{key}:path", (full, got[key])))
+        if m["query"] != canon(want_q, "&=+"):
+            fails.append((f"chain:{key}:query", (want_q, got[key])))
+    if got["args"] != grouped(query):
+        fails.append(("chain:args", (grouped(query), got["args"])))
+    return fails, got
+
+
 # ------------------------------------------------------------------ units
 
-NSHARD = {"iri": 64, "env": 64, "disp": 32, "host": 1, "rawq": 1}
+NSHARD = {"iri": 64, "env": 64, "disp": 32, "host": 1, "rawq": 1, "chain": 1}
 
 
 def units(tier):
@@ -747,12 +810,26 @@ def run_unit(unit, R, tier):
             if not txt.isascii() or any(c in txt for c in " &=+%;:@#?"):
                 R.nontrivial((path, q, b))
             R.use("env:base%d" % b, "env:query" if q else "env:noquery")
+            if path == "" and q:
+                R.use("env:empty-path-with-query")
             R.outcome(("env", b, bool(q), bool(fails)))
             if j % 2003 == 0:
                 R.sample({"kind": "env", "path": path, "query": q, "base": BASES[b][0], "url": got.get("url")})
             for sig, detail in fails:
                 R.violation(sig, {"kind": "env", "sig": sig, "path": path, "query": q, "base": b,
                                   "base_url": BASES[b][0], "detail": detail, "got": got})
+    elif kind == "chain":
+        for case in chain_cases():
+            R.ev()
+            R.count("chain_cases")
+            fails, got = check_chain(*case)
+            if got and got.get("PATH_INFO") == "" and case[1]:
+                R.use("chain:exact-mount-with-query")
+            if got and got.get("SCRIPT_NAME") != dance(case[2]):
+                R.nontrivial(("chain", case))
+            R.outcome(("chain", bool(fails)))
+            for sig, detail in fails:
+                R.violation(sig, {"kind": "chain", "sig": sig, "case": list(case), "detail": detail, "got": got})
     elif kind == "rawq":
         for v in rawq_cases(tier):
             R.ev()
@@ -806,7 +883,7 @@ def run_unit(unit, R, tier):
 def finalize(R, tier):
     need = {"iri:net", "iri:path", "iri:query", "iri:fragment", "iri:cross", "iri:userinfo", "iri:noscheme", "iri:fusion", "iri:trunc",
             "iri:quoted-something", "iri:unquoted-something", "iri:kept-escape", "iri:normalised(u2!=u)",
-            "env:query", "env:noquery", "host:with-header", "host:from-server", "rawq:kept-escape", "disp:mounted", "disp:default", "disp:several-mounts-match", "disp:invalid-utf8-path"}
+            "env:query", "env:noquery", "env:empty-path-with-query", "chain:exact-mount-with-query", "host:with-header", "host:from-server", "rawq:kept-escape", "disp:mounted", "disp:default", "disp:several-mounts-match", "disp:invalid-utf8-path"}
     need |= {"env:base%d" % b for b in range(len(BASES))}
     missing = need - R.used
     if missing:
@@ -841,6 +918,10 @@ def replay(rec):
         q = None if q is None else tuple(tuple(p) for p in q)
         fails, got = check_env(rec["path"], q, rec["base"])
         text = f"EnvironBuilder(path={rec['path']!r}, query_string={q!r}, base_url={BASES[rec['base']][0]!r})\nrequest: {got}"
+    elif kind == "chain":
+        c = rec["case"]
+        fails, got = check_chain(c[0], tuple(tuple(p) for p in c[1]), c[2], c[3])
+        text = f"PATH_INFO, query, SCRIPT_NAME, scheme = {tuple(c)!r} through DispatcherMiddleware({C_MOUNTS})\n{got}"
     elif kind == "rawq":
         fails, got = check_rawq(rec["value"])
         text = f"QUERY_STRING = 'k={rec['value']}&{rec['value']}=1'\n{got}"
